@@ -13,7 +13,7 @@ import time
 from . import core
 from . import jugrun
 
-JUGFILE = '''import os, time
+JUGFILE = '''%(header)simport os, time
 from jug import TaskGenerator
 
 LOG = %(log)r
@@ -94,9 +94,47 @@ def py_env():
     return env
 
 
+_LAYOUT = {}       # root -> {'cli': --jugdir argument, 'store': where the data really is (a jugdir spec), 'dir': directory of a file store or None}
+STORES = ('file', 'keepalive', 'dictfile', 'own')
+
+
+def set_layout(root, kind):
+    """file: plain file store; keepalive: file_keepalive:<dir>; dictfile: dict_store:<file> (in-memory store with a backing file, one
+    process at a time); own: the jugfile selects its store itself with jug.set_jugdir(<other dir>), the command line says something else"""
+    jd = os.path.join(root, 'jd')
+    if kind == 'file':
+        lay = {'cli': jd, 'store': jd, 'dir': jd, 'header': ''}
+    elif kind == 'keepalive':
+        lay = {'cli': 'file_keepalive:' + jd, 'store': 'file_keepalive:' + jd, 'dir': jd, 'header': ''}
+    elif kind == 'dictfile':
+        f = os.path.join(root, 'store.pkl')
+        lay = {'cli': 'dict_store:' + f, 'store': 'dict_store:' + f, 'dir': None, 'header': ''}
+    elif kind == 'own':
+        own = os.path.join(root, 'own_jd')
+        lay = {'cli': jd, 'store': own, 'dir': own, 'header': 'import jug\njug.set_jugdir(%r)\n' % own}
+    else:
+        raise ValueError(kind)
+    lay['hashes'] = None
+    _LAYOUT[root] = lay
+    return lay
+
+
+def layout(root):
+    return _LAYOUT.get(root) or set_layout(root, 'file')
+
+
+def open_store(root):
+    """the store as a fresh process would open it (never written back from here)"""
+    from jug.backends import select
+    st = select(layout(root)['store'])
+    if hasattr(st, 'backend'):
+        st.backend = None
+    return st
+
+
 def jug_cmd(sub, root, extra=()):
     code = 'import sys; from jug.jug import main; main(["jug"] + sys.argv[1:])'
-    return [sys.executable, '-c', code, sub, os.path.join(root, 'jf.py'), '--jugdir', os.path.join(root, 'jd'), '--will-cite'] + list(extra)
+    return [sys.executable, '-c', code, sub, os.path.join(root, 'jf.py'), '--jugdir', layout(root)['cli'], '--will-cite'] + list(extra)
 
 
 def start_worker(root, nr_wait=4, cycle=1, verbose=False, opts=(), env_extra=None):
@@ -135,33 +173,35 @@ def open_tasks(log, pid):
 
 
 def load_state(root, edges):
-    """(results by task index or None, lock names -> task index or name, temp files) through a fresh jug import in a subprocess
-    would be cleanest; here: a fresh file_store object + the task hashes from a subprocess listing"""
-    from jug.backends.file_store import file_store
-    code = ('import sys, json; sys.argv=["x"]; import jug; from jug import task; from jug.jug import init; '
-            'from jug.backends.file_store import file_store; st=file_store(%r); task.Task.store=st; '
-            'store, space = init(%r, %r, store=st); print(json.dumps([t.hash().decode() for t in space["tasks"]]))'
-            % (os.path.join(root, 'jd'), os.path.join(root, 'jf.py'), os.path.join(root, 'jd')))
-    rc, out = core.sh([sys.executable, '-c', code], cwd=root, env=py_env(), timeout=120)
-    hashes = json.loads([l for l in out.splitlines() if l.startswith('[')][-1])
-    st = file_store(os.path.join(root, 'jd'))
+    """(results by task index or None, lock names -> [state, pid], temp files): a fresh store object + the task hashes from a subprocess"""
+    lay = layout(root)
+    if lay['hashes'] is None:
+        code = ('import sys, json; sys.argv=["x"]; import jug; from jug import task; from jug.jug import init; from jug.backends import select; '
+                'st=select(%r); st.backend=None if hasattr(st, "backend") else None; task.Task.store=st; '
+                'store, space = init(%r, %r, store=st); print(json.dumps([t.hash().decode() for t in space["tasks"]]))'
+                % (lay['store'], os.path.join(root, 'jf.py'), lay['store']))
+        rc, out = core.sh([sys.executable, '-c', code], cwd=root, env=py_env(), timeout=120)
+        lay['hashes'] = json.loads([l for l in out.splitlines() if l.startswith('[')][-1])
+    hashes = lay['hashes']
+    st = open_store(root)
     res = []
     for h in hashes:
         hb = h.encode('ascii')
         res.append(st.load(hb) if st.can_load(hb) else None)
     locks = {}
     for name in st.listlocks():
-        n = name.decode('ascii')
+        n = name.decode('ascii') if isinstance(name, bytes) else name
         pid = None
-        try:
-            txt = open(os.path.join(root, 'jd', 'locks', n + '.lock')).read()
-            if txt.startswith('PID '):
-                pid = int(txt.split()[1])
-        except (OSError, ValueError, IndexError):
-            pass
+        if lay['dir'] is not None:
+            try:
+                txt = open(os.path.join(lay['dir'], 'locks', n + '.lock')).read()
+                if txt.startswith('PID '):
+                    pid = int(txt.split()[1])
+            except (OSError, ValueError, IndexError):
+                pass
         locks[hashes.index(n) if n in hashes else n] = ['failed' if st.getlock(name).is_failed() else 'held', pid]
-    td = os.path.join(root, 'jd', 'tempfiles')
-    temps = sorted(os.listdir(td)) if os.path.isdir(td) else []
+    td = os.path.join(lay['dir'], 'tempfiles') if lay['dir'] else None
+    temps = sorted(os.listdir(td)) if td and os.path.isdir(td) else []
     return res, locks, temps
 
 
@@ -208,7 +248,8 @@ def one_run(rng, mode, params=None):
                 ('opts', lambda: [o for o in ('--no-check-environment', '--keep-going', '--keep-failed', '--aggressive-unload') if rng.random() < 0.35]),
                 # repeated stop requests: the later ones arrive while the task function is still unwinding through its own clean-up
                 ('signals', lambda: [mode] + ([rng.choice(['term', 'int']) for _ in range(rng.choice([1, 1, 2]))] if mode != 'kill' and rng.random() < 0.3 else [])),
-                ('kill_at', lambda: '%s:%d' % (('fsync', rng.randint(1, 6)) if rng.random() < 0.6 else ('rename', rng.randint(1, 3))))]
+                ('kill_at', lambda: '%s:%d' % (('fsync', rng.randint(1, 6)) if rng.random() < 0.6 else ('rename', rng.randint(1, 3)))),
+                ('store', lambda: rng.choice(['file', 'file', 'file', 'own'] if mode == 'kill' else ['file', 'file', 'keepalive', 'dictfile']))]
     for k, f in defaults:
         v = f()                 # always drawn, so that presets do not shift the random stream
         params.setdefault(k, v)
@@ -220,6 +261,13 @@ def one_run(rng, mode, params=None):
         n = 3
         params['nworkers'] = 2
         params['victim'] = 1
+    if params['store'] == 'dictfile':
+        # an in-memory store with a backing file serves one process at a time
+        params['nworkers'], params['victim'] = 1, 0
+        if params['when'] == 'in-wait-loop':
+            params['when'] = 'in-function'
+        edges = SHAPES[params['shape']]
+        n = len(edges)
     if params['when'] != 'in-function' or mode == 'kill':
         params['signals'] = [mode]
     if params['when'] == 'in-dump':
@@ -229,11 +277,12 @@ def one_run(rng, mode, params=None):
     found = []
     sig = {'term': signal.SIGTERM, 'int': signal.SIGINT, 'kill': signal.SIGKILL}[mode]
     with jugrun.scratch_dir('jugvp') as root:
+        lay = set_layout(root, params['store'])
         dur = [params['dur']] * n
         if params['when'] == 'in-wait-loop':
             dur[0] = 3.0           # the first worker sits inside task 0 while the victim waits
         with open(os.path.join(root, 'jf.py'), 'w') as f:
-            f.write(JUGFILE % {'log': os.path.join(root, 'log'), 'dur': dur, 'edges': edges, 'stages': stages, 'findur': 1.0})
+            f.write(JUGFILE % {'log': os.path.join(root, 'log'), 'dur': dur, 'edges': edges, 'stages': stages, 'findur': 1.0, 'header': lay['header']})
         procs = []
         try:
             delivered = False
@@ -399,6 +448,10 @@ def _runs(ck, n, modes, presets=()):
         else:
             preset = None
         params, found = one_run(ck.rng, mode, preset)
+        if _timed_out(found):                   # a loaded machine: once more before it counts
+            ck.count('process-run:retried after a timeout')
+            params, found = one_run(ck.rng, mode, {k: params[k] for k in ('shape', 'dur', 'nworkers', 'victim', 'when', 'delay', 'nth', 'opts', 'signals', 'kill_at', 'store')})
+        ck.count('process-run:%s:store %s' % (mode, params['store']))
         ck.count('process-run:%s:%s:%s' % (mode, params['when'], ('delivered' if params.get('valid_instant') else 'delivered at an instant outside the property (not judged)')
                                            if params.get('delivered') else 'too-late'))
         for o in params['opts']:
@@ -412,30 +465,32 @@ def _runs(ck, n, modes, presets=()):
         if params.get('locks_after_signal'):
             ck.count('process-run:%s:locks-left-before-cleanup' % mode)
         for f in found:
-            ck.violation({'kind': 'process-run', 'what': f['what'], 'finding': f, 'mode': mode, 'params': params}, found_input=True)
+            ck.violation({'kind': 'impl-violation', 'kind2': 'process-run', 'what': f['what'], 'finding': f, 'mode': mode, 'params': params}, found_input=True)
 
 
 # a small covering set that every tier runs first: both signals x exit checks on/off x the failure-handling flags x both instants
-SIGNAL_PRESETS = (('term', {'when': 'in-function', 'nworkers': 1, 'opts': ['--no-check-environment']}),
-                  ('int', {'when': 'in-function', 'nworkers': 1, 'opts': ['--keep-going', '--keep-failed']}),
-                  ('term', {'when': 'in-function', 'nworkers': 1, 'opts': []}),
-                  ('int', {'when': 'in-function', 'nworkers': 2, 'victim': 0, 'opts': ['--no-check-environment', '--aggressive-unload']}),
-                  ('term', {'when': 'in-function', 'nworkers': 1, 'opts': [], 'signals': ['term', 'term']}),
-                  ('int', {'when': 'in-function', 'nworkers': 1, 'opts': ['--keep-going'], 'signals': ['int', 'term', 'int']}),
-                  ('term', {'when': 'in-wait-loop', 'opts': ['--keep-going']}),
-                  ('int', {'when': 'in-wait-loop', 'opts': ['--no-check-environment', '--keep-failed']}),
-                  ('term', {'when': 'in-function', 'nworkers': 2, 'opts': ['--keep-failed', '--aggressive-unload']}))
+SIGNAL_PRESETS = (('term', {'when': 'in-function', 'nworkers': 1, 'opts': ['--no-check-environment'], 'store': 'file'}),
+                  ('term', {'when': 'in-function', 'nworkers': 1, 'opts': [], 'store': 'dictfile'}),
+                  ('int', {'when': 'in-function', 'nworkers': 1, 'opts': ['--keep-going', '--keep-failed'], 'store': 'keepalive'}),
+                  ('int', {'when': 'in-function', 'nworkers': 1, 'opts': ['--no-check-environment'], 'store': 'dictfile'}),
+                  ('term', {'when': 'in-function', 'nworkers': 1, 'opts': [], 'signals': ['term', 'term'], 'store': 'file'}),
+                  ('int', {'when': 'in-function', 'nworkers': 1, 'opts': ['--keep-going'], 'signals': ['int', 'term', 'int'], 'store': 'file'}),
+                  ('term', {'when': 'in-wait-loop', 'opts': ['--keep-going'], 'store': 'keepalive'}),
+                  ('int', {'when': 'in-function', 'nworkers': 2, 'victim': 0, 'opts': ['--no-check-environment', '--aggressive-unload'], 'store': 'file'}),
+                  ('int', {'when': 'in-wait-loop', 'opts': ['--no-check-environment', '--keep-failed'], 'store': 'file'}),
+                  ('term', {'when': 'in-function', 'nworkers': 2, 'opts': ['--keep-failed', '--aggressive-unload'], 'store': 'file'}))
 
 
 def signal_runs(ck, n):
     _runs(ck, n, ['term', 'int'], SIGNAL_PRESETS)
 
 
-KILL_PRESETS = (('kill', {'when': 'in-dump', 'kill_at': 'fsync:1', 'nworkers': 1, 'shape': 'chain3'}),
-                ('kill', {'when': 'in-dump', 'kill_at': 'rename:2', 'nworkers': 2, 'victim': 0, 'shape': 'fork'}),
-                ('kill', {'when': 'in-dump', 'kill_at': 'fsync:4', 'nworkers': 1, 'shape': 'join'}),
-                ('kill', {'when': 'in-dump', 'kill_at': 'fsync:1', 'nworkers': 2, 'victim': 1, 'shape': 'indep3'}),
-                ('kill', {'when': 'in-function', 'nworkers': 2}))
+KILL_PRESETS = (('kill', {'when': 'in-dump', 'kill_at': 'fsync:1', 'nworkers': 1, 'shape': 'chain3', 'store': 'file'}),
+                ('kill', {'when': 'in-dump', 'kill_at': 'rename:2', 'nworkers': 1, 'shape': 'fork', 'store': 'own'}),
+                ('kill', {'when': 'in-function', 'nworkers': 1, 'shape': 'join', 'nth': 1, 'store': 'own'}),
+                ('kill', {'when': 'in-dump', 'kill_at': 'rename:1', 'nworkers': 2, 'victim': 0, 'shape': 'fork', 'store': 'file'}),
+                ('kill', {'when': 'in-dump', 'kill_at': 'fsync:1', 'nworkers': 2, 'victim': 1, 'shape': 'indep3', 'store': 'file'}),
+                ('kill', {'when': 'in-function', 'nworkers': 2, 'store': 'file'}))
 
 
 def kill_runs(ck, n):
@@ -445,7 +500,7 @@ def kill_runs(ck, n):
 def replay(obj):
     import random
     if obj.get('mode') == 'failure':
-        params = {k: v for k, v in obj['params'].items() if k in ('shape', 'keep_going', 'keep_failed', 'barrier')}
+        params = {k: v for k, v in obj['params'].items() if k in ('shape', 'keep_going', 'keep_failed', 'barrier', 'exc', 'store')}
         p, found = failure_run(random.Random(0), params)
         print('log:', p.get('log'), 'exit statuses:', p.get('statuses'))
         print('expected (recorded):', obj.get('what'))
@@ -454,7 +509,7 @@ def replay(obj):
         if not found:
             print('observed: no violation on this tree')
         return 1 if found else 0
-    params = {k: v for k, v in obj['params'].items() if k in ('shape', 'dur', 'nworkers', 'victim', 'when', 'delay', 'nth', 'opts', 'signals', 'kill_at')}
+    params = {k: v for k, v in obj['params'].items() if k in ('shape', 'dur', 'nworkers', 'victim', 'when', 'delay', 'nth', 'opts', 'signals', 'kill_at', 'store')}
     p, found = one_run(random.Random(0), obj['mode'], params)
     print('log:', p.get('log'))
     print('expected (recorded):', obj.get('what'))
@@ -466,13 +521,26 @@ def replay(obj):
 
 
 # ================================================================ C11: failing tasks through the real `jug execute` command
-FAIL_JUGFILE = '''import os, time
+FAIL_JUGFILE = '''%(header)simport os, time
 from jug import TaskGenerator, barrier
 
 LOG = %(log)r
 EDGES = %(edges)r
 FAIL = %(fail)r
 BARRIER_AFTER = %(barrier)r
+EXC = %(exc)r
+
+
+class MyError(Exception):
+    pass
+
+
+class MyTypeError(TypeError):
+    pass
+
+
+class MyBase(BaseException):
+    pass
 
 
 def _rec(kind, i):
@@ -488,7 +556,7 @@ def node(i, *deps):
     _rec('S', i)
     if i in FAIL:
         _rec('B', i)
-        raise RuntimeError('task %%d fails' %% i)
+        raise eval(EXC)('task %%d fails' %% i)
     _rec('E', i)
     return ('node', i, list(deps))
 
@@ -505,12 +573,17 @@ FAIL_SHAPES = {  # edges, failing set, barrier after task (None: no barrier) -> 
     'late': ([[], [0], [1], [0]], [2])}
 
 
+EXC_CLASSES = ('RuntimeError', 'TypeError', 'ValueError', 'KeyError', 'AssertionError', 'OSError', 'MyError', 'MyTypeError', 'StopIteration',
+               'ZeroDivisionError', 'MyBase')
+
+
 def failure_run(rng, params=None):
     """one `jug execute` (flags) on a jugfile with failing tasks, optionally with a barrier; then a second execute; then
     `cleanup --failed-only` and a third.  -> (params, findings)"""
     params = dict(params or {})
     for k, f in [('shape', lambda: rng.choice(sorted(FAIL_SHAPES))), ('keep_going', lambda: rng.random() < 0.5), ('keep_failed', lambda: rng.random() < 0.5),
-                 ('barrier', lambda: rng.choice([None, None, 0, 1, 2]))]:
+                 ('barrier', lambda: rng.choice([None, None, 0, 1, 2])),
+                 ('exc', lambda: rng.choice(EXC_CLASSES)), ('store', lambda: rng.choice(['file', 'file', 'dictfile']))]:
         v = f()
         params.setdefault(k, v)
     edges, fail = FAIL_SHAPES[params['shape']]
@@ -527,9 +600,12 @@ def failure_run(rng, params=None):
     if bar is not None and any(i in bad for i in range(bar + 1)):
         defined = list(range(bar + 1))
     found = []
+    ordinary = params['exc'] != 'MyBase'         # a BaseException that is no Exception is not a task failure for jug: the worker just dies (non-zero)
     with jugrun.scratch_dir('jugvf') as root:
+        lay = set_layout(root, params['store'])
         with open(os.path.join(root, 'jf.py'), 'w') as f:
-            f.write(FAIL_JUGFILE % {'log': os.path.join(root, 'log'), 'edges': edges, 'fail': sorted(fail), 'barrier': bar})
+            f.write(FAIL_JUGFILE % {'log': os.path.join(root, 'log'), 'edges': edges, 'fail': sorted(fail), 'barrier': bar, 'exc': params['exc'],
+                                    'header': lay['header']})
 
         def execute(extra=()):
             p = start_worker(root, nr_wait=2, cycle=0, opts=list(flags) + list(extra))
@@ -539,12 +615,8 @@ def failure_run(rng, params=None):
             return p
 
         def state():
-            code = ('import sys, json; from jug.backends.file_store import file_store; st=file_store(%r); '
-                    'print(json.dumps([[k.decode(), st.load(k)] for k in st.list()], default=list))' % os.path.join(root, 'jd'))
-            rc, out = core.sh([sys.executable, '-c', code], cwd=root, env=py_env(), timeout=120)
-            vals = json.loads([l for l in out.splitlines() if l.startswith('[')][-1])
-            from jug.backends.file_store import file_store
-            st = file_store(os.path.join(root, 'jd'))
+            st = open_store(root)
+            vals = [[k, json.loads(json.dumps(st.load(k), default=list))] for k in list(st.list())]
             locks = sorted(('failed' if st.getlock(nm).is_failed() else 'held') for nm in st.listlocks())
             want = [json.loads(json.dumps(r)) for r in reference(edges)]
             stored = []
@@ -573,18 +645,22 @@ def failure_run(rng, params=None):
         for r in log1:
             if r[0] == 'S' and r[2] in bad and r[2] not in fail:
                 found.append({'what': 'process-run: a dependent of a failed task was started', 'task': r[2]})
-        if params['keep_going']:
+        if params['keep_going'] and ordinary:
             for i in defined:
                 if i not in bad and i not in stored:
                     found.append({'what': 'process-run: keep-going: an independent task has no result', 'task': i, 'stored': stored})
         executed_fail = sorted(set(r[2] for r in log1 if r[0] == 'B'))
         want_locks = ['failed'] * len(executed_fail) if params['keep_failed'] else []
+        if not ordinary:
+            want_locks = [x for x in locks if x == 'failed']          # only: no HELD lock may stay
         if locks != want_locks:
             found.append({'what': 'process-run: lock table after a run with failures is wrong', 'locks': locks, 'expected': want_locks})
         n1 = len(read_log(root))
         p2 = execute()
         log2 = judge(p2, n1, 'second')
-        if params['keep_failed']:
+        if not ordinary:
+            pass
+        elif params['keep_failed']:
             again = [r[2] for r in log2 if r[0] == 'S' and r[2] in executed_fail]
             if again:
                 found.append({'what': 'process-run: keep-failed: a failed task was executed again before the failed locks were released', 'tasks': again})
@@ -605,14 +681,28 @@ def failure_run(rng, params=None):
     return params, found
 
 
-FAILURE_PRESETS = ({'shape': 'fork', 'keep_going': True, 'keep_failed': True, 'barrier': 1}, {'shape': 'fork', 'keep_going': True, 'keep_failed': False, 'barrier': None},
-                   {'shape': 'chain', 'keep_going': False, 'keep_failed': True, 'barrier': None}, {'shape': 'indep', 'keep_going': False, 'keep_failed': False, 'barrier': 0},
-                   {'shape': 'two', 'keep_going': True, 'keep_failed': True, 'barrier': 2}, {'shape': 'late', 'keep_going': True, 'keep_failed': False, 'barrier': 1})
+FAILURE_PRESETS = ({'shape': 'fork', 'keep_going': True, 'keep_failed': True, 'barrier': 1, 'exc': 'ValueError', 'store': 'file'},
+                   {'shape': 'chain', 'keep_going': False, 'keep_failed': False, 'barrier': None, 'exc': 'TypeError', 'store': 'file'},
+                   {'shape': 'fork', 'keep_going': True, 'keep_failed': False, 'barrier': None, 'exc': 'KeyError', 'store': 'dictfile'},
+                   {'shape': 'chain', 'keep_going': False, 'keep_failed': True, 'barrier': None, 'exc': 'MyTypeError', 'store': 'dictfile'},
+                   {'shape': 'indep', 'keep_going': False, 'keep_failed': False, 'barrier': 0, 'exc': 'MyError', 'store': 'file'},
+                   {'shape': 'two', 'keep_going': True, 'keep_failed': True, 'barrier': 2, 'exc': 'AssertionError', 'store': 'file'},
+                   {'shape': 'late', 'keep_going': True, 'keep_failed': False, 'barrier': 1, 'exc': 'StopIteration', 'store': 'dictfile'},
+                   {'shape': 'indep', 'keep_going': False, 'keep_failed': True, 'barrier': None, 'exc': 'OSError', 'store': 'file'})
+
+
+def _timed_out(found):
+    return any('did not terminate' in f['what'] for f in found)
 
 
 def failure_runs(ck, n):
     for i in range(n):
         params, found = failure_run(ck.rng, FAILURE_PRESETS[i] if i < len(FAILURE_PRESETS) else None)
+        if _timed_out(found):                   # a loaded machine: once more before it counts
+            ck.count('process-run:retried after a timeout')
+            params, found = failure_run(ck.rng, {k: params[k] for k in ('shape', 'keep_going', 'keep_failed', 'barrier', 'exc', 'store')})
         ck.count('process-run:failing-task:kg=%d,kf=%d,barrier=%s' % (params['keep_going'], params['keep_failed'], 'yes' if params['barrier'] is not None else 'no'))
+        ck.count('process-run:failing-task raises %s' % params['exc'])
+        ck.count('process-run:failing-task:store %s' % params['store'])
         for f in found:
-            ck.violation({'kind': 'process-run', 'what': f['what'], 'finding': f, 'mode': 'failure', 'params': params}, found_input=True)
+            ck.violation({'kind': 'impl-violation', 'kind2': 'process-run', 'what': f['what'], 'finding': f, 'mode': 'failure', 'params': params}, found_input=True)
